@@ -337,10 +337,24 @@ class Derivation(Constraint):
             if not f.applies_to_trial(n//sustain_count + 1):
                 continue
             num_levels = len(f.levels)
-            # `x` was shifted by its position in the window; whether it is a grid variable is decided by where it started
-            def get_trial_size(x, pos):
-                base = x - (pos % window.width) * sustain_count * trial_size
-                return trial_size if base < block.grid_variables() else len(block.decode_variable(base+1)[0].levels)
+            # `x` was shifted by its position in the window, in units of grid trials; whether it is a
+            # grid variable is decided by where it started. A variable of another window factor
+            # advances by that factor's number of levels per trial instead.
+            def shift_variable(x, pos):
+                shift = (pos % window.width) * sustain_count
+                base = x - shift * trial_size
+                # The window's own start is counted from where this source factor is first ready
+                # (`delta` is relative to the latest-starting source only).
+                source = window.factors[pos // window.width]
+                ready_at = window.width - 1
+                if isinstance(source, DerivedFactor) and source.has_complex_window:
+                    ready_at += cast(int, source.first_level.window.start)
+                steps = t * window.stride + (cast(int, window.start) - ready_at) * sustain_count
+                if base < block.grid_variables():
+                    return x + steps * trial_size + 1
+                if steps + shift < 0:
+                    return 0
+                return base + (steps + shift) * len(block.decode_variable(base+1)[0].levels) + 1
 
             # Only keep clauses where all `BeforeStarts` apply and all indices are in range:
             ands = []
@@ -353,7 +367,7 @@ class Derivation(Constraint):
                             ok = False
                             break
                     else:
-                        new_x = x + ((t * window.stride + delta) * get_trial_size(x, pos) + 1)
+                        new_x = shift_variable(x, pos)
                         if new_x <= 0:
                             ok = False
                             break
